@@ -447,8 +447,9 @@ class AudioSim(AoefSim):
         disk = self.on_disk(rec["file"])
         outcome = reply["outcome"]
         oclass = outcome if outcome != "raised" else f"raised:{reply['exc']}"
-        o_c = floors(start * sr, Fraction(start) * sr)
-        n_c = floors((end - start) * sr, (Fraction(end) - Fraction(start)) * sr)
+        o_c = floors(start * sr, Fraction(start) * Fraction(sr))
+        n_c = floors((end - start) * sr,
+                     (Fraction(end) - Fraction(start)) * Fraction(sr))
         if len(o_c) > 1 or len(n_c) > 1:
             self.ambiguous += 1
             self.probes.hit("C15:floor-ambiguous")
